@@ -111,14 +111,22 @@ def roundtrip_part(ctx: vlib.Ctx):
     from harness import gen, tycorr, tyoracle
     from mashumaro.codecs.basic import BasicDecoder, BasicEncoder
     ctx.theorems("props/C01_roundtrip.vo", ["C01_roundtrip", "C01_conf_ord_is_conf", "C01_roundtrip_codec", "C01_roundtrip_total"])
-    ctx.coqchk(["VerifProps.C01_roundtrip", "VerifProps.C01_tz"])
+    ctx.theorems("props/C01_ntdict.vo", ["C01_ntdict_roundtrip", "C01_ntdict_roundtrip_total"])
+    ctx.theorems("props/C01_typevar.vo", ["C01_typevar_roundtrip_total"], kernels=["K45c"])
+    # the round trip composes the C02 / C03 models of the NamedTuple (un)packers: their tie to the emitted code (kernels K45 / K45b,
+    # fail closed when pack_named_tuple / unpack_named_tuple change) is part of what C01 rests on
+    ctx.theorems("props/C03_ntdict_kernel.vo", ["C03_named_code_is_model", "C03_ntdict_code_is_model"], kernels=["K45"])
+    ctx.theorems("props/C02_ntdict_kernel.vo", ["C02_named_code_is_model", "C02_ntdict_code_is_model"], kernels=["K45b"])
+    ctx.coqchk(["VerifProps.C01_roundtrip", "VerifProps.C01_tz", "VerifProps.C01_ntdict", "VerifProps.C01_typevar"])
     ctx.trusted.append("TyModel.v (cp/pk, cu/uk) tied by vm_compute correspondence; stdlib render/parse pairs are oracle functions whose "
                        "round-trip law is a hypothesis of the theorem restricted to the values present (atoms_ok)")
     ctx.assumptions.append("unions are decided under C11 (Literal types of int/str/bool/None constants are inside the Coq grammar; enum-member and bytes literals are not). Abstract / special collection classes (Sequence, Mapping, Deque, OrderedDict, DefaultDict (factory not part of the value), "
                            "MappingProxyType, Counter, ChainMap) and leaf/enum/bytes-typed mapping keys (under vals_ok: wire forms of the keys present pairwise distinct) are inside the Coq grammar. NamedTuple (as_list form), "
                            "TypedDict (total / total=False / Required / NotRequired) and tuples with an unpacked segment are inside the Coq grammar (theorems + correspondence); the round-trip "
                            "theorem states = on TypedDict values whose keys are in the decoder's order (conf_ord), the oracle compares with == on values "
-                           "in shuffled insertion order; namedtuple_as_dict, generic NamedTuples/TypedDicts and collections.namedtuple are oracle only")
+                           "in shuffled insertion order; the as_dict form of a NamedTuple class at the top of a codec (class-specific serialization strategy; the option namedtuple_as_dict when the items "
+                           "reach no other NamedTuple) is modelled in TyNtDict.v over the item (un)packers of TyModel (C01_ntdict_roundtrip(_total) + correspondence); as_dict NamedTuples at nested "
+                           "positions / in holder dataclasses under the global option, generic NamedTuples/TypedDicts and collections.namedtuple are oracle only")
     cases, bad, log = tycorr.run(ctx, "c01_ty", ctx.budget(50, 400), 3, depth=3, foreign=1)
     hits = tyoracle.report_corr(ctx, "TyModel (pk, uk) vs BasicEncoder/BasicDecoder", cases, bad, log)
     n = ctx.budget(900, 6000) if not hits else ctx.budget(2500, 12000)
@@ -152,6 +160,95 @@ def roundtrip_part(ctx: vlib.Ctx):
         for n_ in t.walk():
             ctx.hist("oracle_type_constructors", n_.kind)
         fam.dispose()
+
+
+def tv_part(ctx: vlib.Ctx, name: str, want, n: int):
+    """dataclasses with fields annotated by type variables (unspecialised: TyTypeVar.tv_sty; specialised: the argument) vs the Coq model"""
+    from harness import tycorr
+    cases, bad, log = tycorr.run_tv(ctx, name, n)
+    title = "TyModel over tv_sty vs BasicEncoder/BasicDecoder of generic dataclasses (G / G[...])"
+    sel = [i for i, c in enumerate(cases) if want is None or c["kind"] == want or c["kind"] == "build"]
+    if bad is None:
+        ctx.correspondence(title, len(sel), -1, log)
+        ctx.not_shown("correspondence " + title, log)
+        return
+    hits = [i for i in bad if i in set(sel)]
+    detail = "; ".join(f"{cases[i]['kind']} {cases[i]['src'].split('@dataclass')[1][:160]!r} {repr(cases[i].get('value', cases[i].get('input')))[:120]} -> {repr(cases[i]['out'])[:120]}" for i in hits[:3])
+    ctx.correspondence(title, len(sel), len(hits), detail)
+    if hits:
+        ctx.not_shown("correspondence " + title, detail)
+    for c in cases:
+        ctx.hist("case_kinds", "tv-" + c["kind"] + ":" + c["out"][0])
+
+
+def omit_part(ctx: vlib.Ctx):
+    """directed, deterministic: the key-dropping options that are lossless by design (omit_default, omit_none with None defaults) on Optional
+    fields whose default is NOT None -- an explicit None must survive the round trip (it is not the default, so it is written and read back)"""
+    from harness import gen
+    combos = [("Optional[int]", "5", ["None", "5", "0"]), ("Optional[str]", "'x'", ["None", "'x'", "''"]),
+              ("Optional[List[int]]", "field(default_factory=lambda: [1])", ["None", "[1]", "[]"]),
+              ("Optional[date]", "date(2020, 1, 2)", ["None", "date(2020, 1, 2)", "date(1999, 12, 31)"]),
+              ("Optional[int]", "None", ["None", "3"])]
+    for opts in ("omit_default = True", "omit_default = True\n        omit_none = True", "omit_none = True"):
+        for ann, dflt, vals in combos:
+            if "omit_none" in opts and dflt != "None" and "omit_default" not in opts:
+                continue            # omit_none alone with a non-None default discards an explicit None on purpose
+            if "omit_none" in opts and "omit_default" in opts and dflt != "None":
+                continue
+            src = ("from dataclasses import dataclass, field\nfrom datetime import date\nfrom typing import List, Optional\n"
+                   "from mashumaro import DataClassDictMixin\nfrom mashumaro.config import BaseConfig\n"
+                   f"@dataclass\nclass O(DataClassDictMixin):\n    a: int\n    x: {ann} = {dflt}\n    class Config(BaseConfig):\n        {opts}\n")
+            try:
+                ns = gen.build_module(src)
+            except Exception as e:
+                ctx.fail(f"omit scenario cannot be built: {type(e).__name__}: {e}", {"entry": "codec_build", "source": src, "type": "O", "expected": "ok"}, {"kind": "codec-build"})
+                continue
+            for vs in vals:
+                vsrc = f"O(1, {vs})"
+                v = eval(vsrc, dict(ns))
+                ctx.count(("omit", opts, ann, dflt, vs))
+                try:
+                    back = type(v).from_dict(v.to_dict())
+                    ok = back == v
+                    obs = "ok:" + gen.py_src(back)
+                except Exception as e:
+                    ok = False
+                    obs = f"exc:{type(e).__name__}"
+                if not ok:
+                    ctx.fail(f"O(a: int, x: {ann} = {dflt}) with {opts.split()[0]}: mixin_roundtrip of {vsrc} gives {obs[:200]}",
+                             {"entry": "mixin_roundtrip", "source": src, "type": "O", "input_src": vsrc, "observed": obs, "expected": "ok:" + gen.py_src(v)},
+                             {"kind": "roundtrip"})
+
+
+def as_dict_part(ctx: vlib.Ctx):
+    """NamedTuples in the dict form (dialect option namedtuple_as_dict, or Config option of a holder dataclass): decode(encode(v)) == v, also for values whose defaulted
+    items equal their defaults"""
+    from harness import gen, tyoracle
+    from mashumaro.codecs.basic import BasicDecoder, BasicEncoder
+    for fam, ns, t, ty, dia in tyoracle.as_dict_stream(ctx.rng, ctx.budget(40, 250)):
+        try:
+            kw = {"default_dialect": dia} if dia else {}
+            enc, dec = BasicEncoder(ty, **kw), BasicDecoder(ty, **kw)
+        except Exception as e:
+            ctx.fail(f"as_dict codec for {gen.py_ann(t)} cannot be built: {type(e).__name__}: {e}",
+                     {"entry": "codec_build", "source": fam.source(), "type": gen.py_ann(t), "expected": "ok"}, {"kind": "codec-build"})
+            continue
+        vg = gen.ValueGen(ctx.rng, fam)
+        for _ in range(3):
+            v = vg.value(t)
+            ctx.count((t.key(), "as_dict", repr(v)))
+            ctx.hist("as_dict_root", t.kind if dia else "config")
+            try:
+                back = dec.decode(enc.encode(v))
+                ok = gen.same(back, v)
+                obs = "ok:" + gen.py_src(back)
+            except Exception as e:
+                ok = False
+                obs = f"exc:{type(e).__name__}"
+            if not ok:
+                ctx.fail(f"{gen.py_ann(t)}: as_dict round trip of {gen.py_src(v)[:200]} gives {obs[:200]}",
+                         {"entry": "codec_roundtrip_as_dict" if dia else "codec_roundtrip", "source": fam.source(), "type": gen.py_ann(t), "input_src": gen.py_src(v),
+                          "observed": obs, "expected": "ok:" + gen.py_src(v)}, {"kind": "roundtrip"})
 
 
 def scenario_part(ctx: vlib.Ctx):
@@ -207,7 +304,14 @@ def run(ctx: vlib.Ctx):
                             "distinct = (type tree, value) pairs")
     tz_part(ctx)
     roundtrip_part(ctx)
+    as_dict_part(ctx)
     scenario_part(ctx)
+    # round-6 parts last: the random streams of the parts above stay what they were for every seed
+    from harness import tycorr, tyoracle
+    ncases, nbad, nlog = tycorr.run_nd(ctx, "c01_nd", ctx.budget(16, 120), foreign=1)
+    tyoracle.report_corr(ctx, "TyNtDict (pk_nd, uk_nd) vs BasicEncoder/BasicDecoder under an as_dict dialect", ncases, nbad, nlog)
+    tv_part(ctx, "c01_tv", None, ctx.budget(12, 100))
+    omit_part(ctx)
 
 
 def replay(rep: dict) -> int:
